@@ -128,7 +128,7 @@ pub fn run(kind: &str, ctx: &Ctx, out: &mut dyn Write) {
                 if n <= 4 {
                     let mut all = all_partial(n);
                     rng.shuffle(&mut all);
-                    lists.extend(all.into_iter().take(if quick { 3 } else { 12 }));
+                    lists.extend(all.into_iter().take(if quick { 3 } else if kind == "c07" { 6 } else { 12 }));
                 } else {
                     for _ in 0..(if quick { 3 } else { 8 }) {
                         let len = rng.below(4) as usize;
@@ -177,7 +177,7 @@ pub fn run(kind: &str, ctx: &Ctx, out: &mut dyn Write) {
                             // the same request again on the same instance
                             run_sample(&mut d, a, amount, seed, &mut s);
                         }
-                        if !quick {
+                        if !quick && k % 40 == 0 {
                             run_sample(&mut d, &[], 1000, rng.below(1000), &mut s);
                         }
                     }
